@@ -1,0 +1,17 @@
+//go:build verif
+
+package chacha20
+
+// VerifC03State exposes the stream position of a Cipher for /verif check C03 (build tag
+// "verif" only): the block counter of the next block to be generated, the number of
+// buffered unused key-stream bytes, and the overflow flag.
+func (s *Cipher) VerifC03State() (counter uint32, buffered int, overflow bool) {
+	return s.counter, s.len, s.overflow
+}
+
+// VerifC03BufSize is the size of the internal key-stream buffer on this platform.
+const VerifC03BufSize = bufSize
+
+// VerifC03Precomp reports whether the counter-independent first-round values are cached
+// (part of the Cipher's state, set by the first generated block).
+func (s *Cipher) VerifC03Precomp() bool { return s.precompDone }
